@@ -33,10 +33,10 @@ def case_gen(draw):
     # few iterations make the fixed-point iteration for me2 stop short, so that the root-finder fallback (and, below
     # ~10 iterations, the non-convergence flags) are exercised as well
     maxit = draw(st.sampled_from([1000, 1000, 1000, 200, 50, 20, 12, 8, 5, 3, 2, 1]))
-    return {"p": p, "pert": pert, "prec": prec, "maxit": maxit}
+    return {"p": p, "pert": pert, "prec": prec, "maxit": maxit, "slha_conv": draw(st.booleans())}
 
 
-def second_model_tokens(p, r1, pert, prec, maxit=1000):
+def second_model_tokens(p, r1, pert, prec, maxit=1000, slha_conv=False):
     q = dict(p)
     q["Mu"] = p["Mu"] * pert["Mu"]
     q["MassB"] = p["MassB"] * pert["MassB"]
@@ -45,9 +45,17 @@ def second_model_tokens(p, r1, pert, prec, maxit=1000):
     q["me2"] = [p["me2"][0], p["me2"][1] * pert["me2"], p["me2"][2]]
     t = ["mssm"] + gen.mssm_set_tokens(q)
     for i in range(4):
-        t += ["physa", "MChi", i, r1["ph.MChi.%d" % i]]
+        row = [(r1["ph.ZN.%d.%d.re" % (i, j)], r1["ph.ZN.%d.%d.im" % (i, j)]) for j in range(4)]
+        mchi = r1["ph.MChi.%d" % i]
+        if slha_conv and max(abs(im) for _, im in row) > max(abs(re) for re, _ in row):
+            # SLHA convention of spectrum generators: real mixing matrix, signed mass (row_HK = i * row_SLHA)
+            row = [(im, -re) for re, im in row]
+            mchi = -mchi
+        t += ["physa", "MChi", i, mchi]
         for j in range(4):
-            t += ["physm", "ZN", i, j, r1["ph.ZN.%d.%d.re" % (i, j)], r1["ph.ZN.%d.%d.im" % (i, j)]]
+            t += ["physm", "ZN", i, j, row[j][0], row[j][1]]
+    if slha_conv:
+        t += ["to_hk"]        # what GM2_slha_io::fill_slha does after reading MASS and NMIX
     for i in range(2):
         t += ["physa", "MCha", i, r1["ph.MCha.%d" % i], "physa", "MSm", i, r1["ph.MSm.%d" % i]]
         for j in range(2):
@@ -67,7 +75,7 @@ def prop(case):
     if mssm.threw(r1) or r1["have_problem"]:
         discard("base-point-rejected")
         return None
-    toks, q = second_model_tokens(p, r1, pert, prec, case.get("maxit", 1000))
+    toks, q = second_model_tokens(p, r1, pert, prec, case.get("maxit", 1000), case.get("slha_conv", False))
     r = vx.shared().call(*toks)
     if isinstance(r, (vx.Died, vx.Err)):
         return Fail("executor failure in conversion", result=repr(r))
